@@ -244,9 +244,21 @@ def run_dispatch(state):
     attrs["send_callback"] = send_callback
     Client = type("GenClient", (HttpBeaconClient,), attrs)
     cl = Client()
-    for n, (kind, cmd) in enumerate(state["regs"]):
+    def make_handler(name, behaviour):
+        # a handler may fail or answer with something that cannot be sent: the other handlers of the task still run
+        def fn(task):
+            log.append((name, cl._cur))
+            if behaviour == "raise":
+                raise RuntimeError("handler failure (generated)")
+            if behaviour == "bad":
+                return 7
+            return None
+
+        return fn
+
+    for n, (kind, cmd, *beh) in enumerate(state["regs"]):
         name = f"deco:{n}:{kind}:{cmd}"
-        fn = (lambda name: lambda task: log.append((name, cl._cur)))(name)
+        fn = make_handler(name, beh[0] if beh else None)
         if kind == "handle":
             arg = cmd
             if state["init"]["enum_args"] and cmd is not None:
@@ -256,14 +268,14 @@ def run_dispatch(state):
             cl.catch_all()(fn)
 
     def model_handlers(cmd):
-        hs = [f"deco:{n}:handle:{c}" for n, (k, c) in enumerate(state["regs"]) if k == "handle" and c == cmd]
+        hs = [f"deco:{n}:handle:{c}" for n, (k, c, *_b) in enumerate(state["regs"]) if k == "handle" and c == cmd]
         if cmd is None:
             if None in state["methods"]:
                 hs.append("method:on_empty_task")
         elif cmd in state["methods"]:
             hs.append("method:on_" + BeaconCommand(cmd).name.replace("COMMAND_", "").lower())
         if not hs:
-            hs = [f"deco:{n}:catch_all:{c}" for n, (k, c) in enumerate(state["regs"]) if k == "catch_all"]
+            hs = [f"deco:{n}:catch_all:{c}" for n, (k, c, *_b) in enumerate(state["regs"]) if k == "catch_all"]
             if "catch_all" in state["methods"]:
                 hs.append("method:on_catch_all")
         return hs
@@ -301,18 +313,18 @@ def dispatch_finish(state, case, stats):
     if not state["tasks"]:
         return
     run_dispatch(state)
-    both = [c for c in state["methods"] if c not in ("catch_all",) and any(k == "handle" and cc == c for k, cc in state["regs"])]
+    both = [c for c in state["methods"] if c not in ("catch_all",) and any(k == "handle" and cc == c for k, cc, *_b in state["regs"])]
     ntasks_both = sum(1 for c, _ in state["tasks"] if c in both)
-    has_catch = "catch_all" in state["methods"] or any(k == "catch_all" for k, _ in state["regs"])
-    stats.note(case, ntasks_both >= 2 or (has_catch and len(state["tasks"]) >= 3), classes=["tasks%d" % min(len(state["tasks"]), 5), "decorator+method" if both else "single_kind", "catch_all" if has_catch else "no_catch_all", "silent" if state["init"]["silent"] else "verbose"])
+    has_catch = "catch_all" in state["methods"] or any(k == "catch_all" for k, *_r in state["regs"])
+    stats.note(case, ntasks_both >= 2 or (has_catch and len(state["tasks"]) >= 3), classes=["tasks%d" % min(len(state["tasks"]), 5), "decorator+method" if both else "single_kind", "catch_all" if has_catch else "no_catch_all", "silent" if state["init"]["silent"] else "verbose", "failing_handler" if any(len(r) > 2 and r[2] for r in state["regs"]) else "no_failing_handler"])
 
 
 def apply_dispatch_op(state, op):
     kind = op[0]
     if kind == "handle":
-        state["regs"].append(("handle", op[1]))
+        state["regs"].append(("handle", op[1], op[2] if len(op) > 2 else None))
     elif kind == "catch_all":
-        state["regs"].append(("catch_all", None))
+        state["regs"].append(("catch_all", None, op[1] if len(op) > 1 else None))
     elif kind == "method":
         if op[1] not in state["methods"]:
             state["methods"].append(op[1])
@@ -342,14 +354,14 @@ def dispatch_machine(stats, rec):
             apply_dispatch_op(self.state, op)
 
         @precondition(lambda self: self.state is not None and not self.state["tasks"])
-        @rule(cmd=cmd_st)
-        def handle(self, cmd):
-            self.do(("handle", cmd))
+        @rule(cmd=cmd_st, beh=st.sampled_from([None, None, None, "raise", "bad"]))
+        def handle(self, cmd, beh):
+            self.do(("handle", cmd, beh))
 
         @precondition(lambda self: self.state is not None and not self.state["tasks"])
-        @rule()
-        def catch_all(self):
-            self.do(("catch_all",))
+        @rule(beh=st.sampled_from([None, None, "raise", "bad"]))
+        def catch_all(self, beh):
+            self.do(("catch_all", beh))
 
         @precondition(lambda self: self.state is not None and not self.state["tasks"])
         @rule(cmd=st.one_of(cmd_st, st.just("catch_all")))
